@@ -2,11 +2,14 @@
 import os, subprocess
 from vlib.build import OCAML
 
-DRIVER = os.path.join(OCAML, "_build", "driver")
+def driver_path(tag):
+    return os.path.join(OCAML, "_build", tag, "driver")
 
 
-def run_batch(entry, arglists, timeout=1800):
-    """arglists: iterable of lists of ints. Returns list of lists of ints (model outputs)."""
+def run_batch(tag, entry, arglists, timeout=1800):
+    """Run entry number `entry` of the model extracted by Extract<Tag>.v on each argument list.
+    arglists: iterable of lists of ints. Returns list of lists of ints (model outputs)."""
+    DRIVER = driver_path(tag)
     arglists = list(arglists)
     if not arglists:
         return []
@@ -23,8 +26,8 @@ def run_batch(entry, arglists, timeout=1800):
     return [[int(t) for t in l.split()] for l in lines]
 
 
-def run_one(entry, args):
-    return run_batch(entry, [args])[0]
+def run_one(tag, entry, args):
+    return run_batch(tag, entry, [args])[0]
 
 
 def enc_bytes(b):
